@@ -12,6 +12,7 @@ package interp
 
 import (
 	"fmt"
+	"go/token"
 	"go/types"
 	"sort"
 	"strings"
@@ -134,6 +135,10 @@ func (e *Explorer) freshRune() sym {
 	e.PC = append(e.PC,
 		"(= (= "+s.t+" #x0000005f) "+classPred(cls, c.colIndex[":underscore"])+")",
 		"(= (= "+s.t+" #x0000002a) "+classPred(cls, c.colIndex[":star"])+")")
+	// ASCII code points (the ones code compares runes with, e.g. keywords) determine the class
+	for _, rg := range asciiClassRanges() {
+		e.PC = append(e.PC, fmt.Sprintf("(=> (and (bvuge %s #x%08x) (bvule %s #x%08x)) (= %s %d))", s.t, rg[0], s.t, rg[1], cls, rg[2]))
+	}
 	for _, m := range runeMaps[1:] {
 		e.PC = append(e.PC,
 			"(= (= ("+m+" "+s.t+") "+s.t+") "+classPred(cls, c.colIndex[m+":eq"])+")",
@@ -275,6 +280,103 @@ func RuneWitness(k int) rune {
 		return 'x'
 	}
 	return c.witness[k]
+}
+
+// RuneClassOf returns the class index of a code point (-1 for surrogates / out of range).
+func RuneClassOf(r rune) int {
+	if r < 0 || r > unicode.MaxRune || (r >= 0xD800 && r <= 0xDFFF) {
+		return -1
+	}
+	c := getRuneClasses()
+	v := runeVector(r)
+next:
+	for k, w := range c.vectors {
+		for j := range w {
+			if w[j] != v[j] {
+				continue next
+			}
+		}
+		return k
+	}
+	return -1
+}
+
+var (
+	asciiOnce   sync.Once
+	asciiRanges [][3]int
+)
+
+// asciiClassRanges: maximal runs [lo,hi] of ASCII code points sharing one class.
+func asciiClassRanges() [][3]int {
+	asciiOnce.Do(func() {
+		lo, cur := 0, RuneClassOf(0)
+		for r := 1; r <= 128; r++ {
+			k := -2
+			if r < 128 {
+				k = RuneClassOf(rune(r))
+			}
+			if k != cur {
+				asciiRanges = append(asciiRanges, [3]int{lo, r - 1, cur})
+				lo, cur = r, k
+			}
+		}
+	})
+	return asciiRanges
+}
+
+var goKeywords = []string{"break", "case", "chan", "const", "continue", "default", "defer", "else", "fallthrough", "for", "func", "go", "goto", "if", "import", "interface", "map", "package", "range", "return", "select", "struct", "switch", "type", "var"}
+
+// tokenNatives: go/token's identifier predicates on (rune) strings.
+func init() {
+	isKeyword := func(v value) value {
+		if s, ok := v.(string); ok {
+			return token.IsKeyword(s)
+		}
+		rs, ok := toRuneStr(v)
+		if !ok {
+			panic(unsupported("go/token predicate on a symbolic string atom"))
+		}
+		res := mkBool("false")
+		for _, kw := range goKeywords {
+			res = symOr(res, runeStrEq(rs, kw))
+		}
+		return simplifyBool(res)
+	}
+	natives["go/token.IsKeyword"] = func(fr *frame, a []value) value { return isKeyword(a[0]) }
+	natives["go/token.IsExported"] = func(fr *frame, a []value) value {
+		if s, ok := a[0].(string); ok {
+			return token.IsExported(s)
+		}
+		rs, ok := toRuneStr(a[0])
+		if !ok {
+			panic(unsupported("go/token predicate on a symbolic string atom"))
+		}
+		if len(rs) == 0 {
+			return false
+		}
+		return runePred(fr, "upper", unicode.IsUpper, rs[0])
+	}
+	natives["go/token.IsIdentifier"] = func(fr *frame, a []value) value {
+		if s, ok := a[0].(string); ok {
+			return token.IsIdentifier(s)
+		}
+		rs, ok := toRuneStr(a[0])
+		if !ok {
+			panic(unsupported("go/token predicate on a symbolic string atom"))
+		}
+		if len(rs) == 0 {
+			return false
+		}
+		res := symNot(asTerm(isKeyword(rs)))
+		for k, r := range rs {
+			ok := symOr(asTerm(runePred(fr, "letter", unicode.IsLetter, r)), symEq(asTerm(r), asTerm(rune('_'))))
+			if k > 0 {
+				ok = symOr(ok, asTerm(runePred(fr, "digit", unicode.IsDigit, r)))
+			}
+			res = symAnd(res, ok)
+		}
+		return simplifyBool(res)
+	}
 }
 
 // RuneClassCount is the number of realizable attribute vectors (evidence).
